@@ -9,14 +9,13 @@ Theorem map_refines_alist :
     (forall a b, keq a b = keq b a) ->
     (forall a b c, keq a b = true -> keq b c = true -> keq a c = true) ->
     (forall a b, keq a b = true -> hash a = hash b) ->
-    (forall k, nanlike k = false) ->
     forall ops : list (op key val), forallb (proved_op key val) ops = true ->
-      let c := run key val keq nanlike hash he ht (empty_map key val) ops in
+      let c := run key val keq nanlike true hash he ht (empty_map key val) ops in
       let s := srun key val keq [] ops in
       snd c = snd s /\ abs key val (fst c) = lift key val (fst s) /\
       length (snd (fst c)) = length (fst s) /\ len (fst (fst c)) = length (fst s).
 Proof.
-  intros key val keq nanlike hash he ht Hrefl Hsym Htrans Hhash Hnan.
+  intros key val keq nanlike hash he ht Hrefl Hsym Htrans Hhash.
   apply refines_with_grow; auto. apply grow_ok_proved. exact Hsym.
 Qed.
 
@@ -27,13 +26,12 @@ Theorem map_inv_run :
     (forall a b, keq a b = keq b a) ->
     (forall a b c, keq a b = true -> keq b c = true -> keq a c = true) ->
     (forall a b, keq a b = true -> hash a = hash b) ->
-    (forall k, nanlike k = false) ->
     forall ops : list (op key val), forallb (proved_op key val) ops = true ->
-      R key val keq hash (fst (run key val keq nanlike hash he ht (empty_map key val) ops))
+      R key val keq hash (fst (run key val keq nanlike true hash he ht (empty_map key val) ops))
         (fst (srun key val keq [] ops)).
 Proof.
-  intros key val keq nanlike hash he ht Hrefl Hsym Htrans Hhash Hnan ops Hall.
-  apply (run_sim key val keq nanlike hash he ht Hrefl Hsym Htrans Hhash Hnan
+  intros key val keq nanlike hash he ht Hrefl Hsym Htrans Hhash ops Hall.
+  apply (run_sim key val keq nanlike hash he ht Hrefl Hsym Htrans Hhash
            (grow_ok_proved key keq hash he ht Hsym) ops); auto.
   apply R_init.
 Qed.
